@@ -42,7 +42,13 @@ func runNativeFuzz(r *runner) {
 	os.MkdirAll(root, 0o755)
 	os.MkdirAll(out, 0o755)
 	t0 := time.Now()
-	build := exec.Command(goBin, "test", "-c", "-tags", "verif unit", "-fuzz=Fuzz", "-o", bin, "./cmd/c07")
+	args := []string{"test", "-c", "-tags", "verif unit", "-fuzz=Fuzz", "-o", bin}
+	if ov := filepath.Join(work, "overlay.json"); fileExists(ov) { // written by bin/check from the config's overlay_files
+		args = append(args, "-overlay", ov)
+	} else if ov := os.Getenv("C07_OVERLAY"); ov != "" {
+		args = append(args, "-overlay", ov)
+	}
+	build := exec.Command(goBin, append(args, "./cmd/c07")...)
 	if b, err := build.CombinedOutput(); err != nil {
 		r.res.Note("native fuzzing skipped: test binary does not build: " + lastLines(string(b), 5))
 		return
@@ -176,3 +182,5 @@ func lastLines(s string, n int) string {
 	}
 	return strings.Join(l, " | ")
 }
+
+func fileExists(p string) bool { _, err := os.Stat(p); return err == nil }
